@@ -461,6 +461,19 @@ type MessageBadStringArray struct {
 
 func (*MessageBadStringArray) GetID() uint32 { return 900032 }
 
+type MessageBadStringArrayNoLen struct {
+	Callsign [4]string
+}
+
+func (*MessageBadStringArrayNoLen) GetID() uint32 { return 900039 }
+
+type MessageBadStringArrayOfOne struct {
+	Callsign [1]string
+	A        uint8
+}
+
+func (*MessageBadStringArrayOfOne) GetID() uint32 { return 900040 }
+
 // names that do not BEGIN with "Message" (the word elsewhere in the name, in other letter case, or only part of it)
 type TelemetryMessageStatus struct{ A uint8 }
 
@@ -487,7 +500,7 @@ type XMessageMessageInterval struct{ A uint8 }
 func (*XMessageMessageInterval) GetID() uint32 { return 900038 }
 
 var malformed = []message.Message{
-	&TelemetryMessageStatus{}, &MyMessage{}, &messageLowerCase{}, &MESSAGEUpperCase{}, &MessagStatus{}, &XMessageMessageInterval{},
+	&MessageBadStringArrayNoLen{}, &MessageBadStringArrayOfOne{}, &TelemetryMessageStatus{}, &MyMessage{}, &messageLowerCase{}, &MESSAGEUpperCase{}, &MessagStatus{}, &XMessageMessageInterval{},
 	&MessageBadMatrix{}, &MessageBadCube{}, &MessageBadEnumMatrix{}, &MessageBadStringArray{},
 	&MessageBadEmbeddedScalar{}, &MessageBadEmbeddedAlias{}, &MessageBadEmbeddedString{},
 	&MessageBadZeroLenString{}, &MessageBadNegativeLenString{}, &MessageBadEmptyLenTag{},
